@@ -12,6 +12,7 @@ def dispatch (st : DrvState) (line : String) : DrvState × String :=
   match toks with
   | "tt" :: args => let (t, o) := Drv.TT.step st.tt args; ({ st with tt := t }, o)
   | "book" :: args => let (t, o) := Drv.BookBuild.step st.book args; ({ st with book := t }, o)
+  | "bookrec" :: args => (st, Drv.BookBuild.stepRec args)
   | _ => (st, "bad-op")
 
 partial def loop (h : IO.FS.Stream) (out : IO.FS.Stream) (st : DrvState) : IO Unit := do
